@@ -79,7 +79,7 @@ int main(int, char**) {
       Obj* first = new Obj; first->id = 0; all_objs.push_back(first);
       std::verif_atomic<Obj*> cell {first};
       int xseq = 0;
-      bool uaf = false, holdback = true, stale = true, tick_ok = true, rwl = false, stale_after_rwl = true;
+      bool uaf = false, holdback = true, stale = true, tick_ok = true, rwl = false;
       auto raw_version = [&] { return static_cast<std::verif_atomic<uint64_t>::B&>(epoch._version).load(std::memory_order_relaxed); };
       auto skip = [&](Op& op) { verif::point(verif::K_USER, 0, nullptr, "skip", 0); op.res = "-"; };
 
@@ -183,7 +183,7 @@ int main(int, char**) {
                 // (2) nothing but regions that overlap the call may hold the mark back
                 uint64_t just = UINT64_MAX;
                 for (auto& r : regions) if (r.end == 0 || r.end > cs) just = std::min(just, r.gmin);
-                if (m < just) { if (rwl) stale_after_rwl = false; else stale = false; }
+                if (m < just) stale = false;
                 std::string ids;
                 std::vector<std::pair<Obj*, uint64_t>> keep;
                 for (auto& pr : retired[t]) {
@@ -207,9 +207,9 @@ int main(int, char**) {
         for (size_t i = 0; i < threads[t].size(); ++i) out += threads[t][i].res + (i + 1 < threads[t].size() ? "," : "");
         out += (t + 1 < NT ? "|" : "");
       }
-      printf("%s ok steps=%llu pre=%llu | %s uaf=%d | uaf=%d holdback=%d stale=%d tick=%d rwlstale=%d rwl=%d\n", id,
+      printf("%s ok steps=%llu pre=%llu | %s uaf=%d | uaf=%d holdback=%d stale=%d tick=%d rwl=%d\n", id,
              (unsigned long long)r.steps, (unsigned long long)r.preemptions, out.c_str(), uaf ? 1 : 0, uaf ? 0 : 1,
-             holdback ? 1 : 0, stale ? 1 : 0, tick_ok ? 1 : 0, stale_after_rwl ? 1 : 0, rwl ? 1 : 0);
+             holdback ? 1 : 0, stale ? 1 : 0, tick_ok ? 1 : 0, rwl ? 1 : 0);
       fflush(stdout);
       // leave every region and release accessors before the epoch goes away
       for (auto o : all_objs) delete o;
